@@ -298,7 +298,7 @@ func runCase(id, wi int, w lib.Wiring, r *hlib.SplitMix64, ifa *net.Interface, i
 	// wait (positively) for a record from host `ip`, re-injecting `frame` every 10 ms; collects other records
 	var between []rec
 	waitFor := func(frame []byte, ip string, collect bool) bool {
-		deadline := time.Now().Add(4 * time.Second)
+		deadline := time.Now().Add(20 * time.Second)
 		for time.Now().Before(deadline) {
 			if err := inj.WritePacketData(frame); err != nil {
 				c.Err = "inject: " + err.Error()
@@ -332,9 +332,19 @@ func runCase(id, wi int, w lib.Wiring, r *hlib.SplitMix64, ifa *net.Interface, i
 		cancel()
 		return c
 	}
+	seenKey := map[string]bool{}
 	for i, f := range frames {
 		o := frameObs{Frame: hex.EncodeToString(f), Class: classes[i]}
-		ip, _ := frameKey(w, f)
+		ip, port := frameKey(w, f)
+		key := fmt.Sprint(ip, "/", port)
+		if y, ok := frameRec(w.Filter, false, f); ok {
+			key = fmt.Sprint(y.ip, "/", y.port, "/", y.ttl, "/", y.t, "/", y.c, "/", y.mac)
+		}
+		if ip != "" && seenKey[key] {
+			c.Frames = append(c.Frames, o)
+			continue
+		}
+		seenKey[key] = true
 		// (802.1Q-tagged frames are left out: the kernel strips the tag before the socket filter runs)
 		if len(f) >= 14 && len(f) <= 1514 && ip != ipA && ip != ipB && classes[i] != "vlan" {
 			o.Sent = inj.WritePacketData(f) == nil
@@ -345,10 +355,20 @@ func runCase(id, wi int, w lib.Wiring, r *hlib.SplitMix64, ifa *net.Interface, i
 		c.Err = "second-sentinel-not-reported"
 	}
 	cancel()
-	select {
-	case <-done:
-	case <-time.After(5 * time.Second):
-		c.Err += " engine-did-not-stop"
+	// the receiver sits in a poll without timeout and sees the cancellation only when a frame passes the
+	// filter: keep the sentinel coming until the engine has returned
+	stop := time.After(30 * time.Second)
+S:
+	for {
+		_ = inj.WritePacketData(sa)
+		select {
+		case <-done:
+			break S
+		case <-stop:
+			c.Err += " engine-did-not-stop"
+			break S
+		case <-time.After(20 * time.Millisecond):
+		}
 	}
 	matchRecords(&c, w.Filter, false, between)
 	return c
